@@ -31,3 +31,10 @@ def point_ok(p):
 
 def all_points_ok(points):
     return all([point_ok(p) for p in points])
+
+
+def reconstructed(gdt_msec, ref_ms):
+    """the latest instant not after ref_ms (UTC ms) whose generationDeltaTime (ITS ms modulo 65536) is gdt_msec"""
+    its_ref = ref_ms - 1072915200000 + 5000
+    back = (its_ref - gdt_msec) % 65536
+    return ref_ms - back
